@@ -120,7 +120,7 @@ CLAIMS.update({
              'ellipsoid built from them through splits; caches are reset when members change; at '
              'the leaf, the ellipsoid sampler draws direction x u^(1/n) through the matrix whose '
              'inverse contains() applies.  Leaf floating-point geometry is assumed.',
-        ref='DESIGN.md section 4 C07 and 10.9, rules M1 M2 M3 A4 M6 L1 L6 T9 V2', note=TRUST),
+        ref='DESIGN.md section 4 C07 and 10.9, rules M1 M2 M3 A4 M6 L1 L6 T9 V2 F9', note=TRUST),
     'C08': dict(
         technique='sibling-agreement (serial vs pool branch) and def-use dependency rules',
         text='WEAK claim, structural necessary conditions only: the pool branch of '
@@ -174,7 +174,7 @@ CLAIMS.update({
              'arithmetic (scalar and vectorised evaluation see the same coordinates); no parameter '
              'that may be its mutable default object is modified in place, no unlisted global '
              'write, no class-level mutable attribute.',
-        ref='DESIGN.md section 4 C11 and 10.9, rules F1-F5 F7 F8 G1', note=TRUST +
+        ref='DESIGN.md section 4 C11 and 10.9, rules F1-F5 F7 F8 F9 G1', note=TRUST +
         ' NumPy / SciPy / sklearn are deterministic given their seeds.'),
     'C12': dict(
         technique='control-dependence phase guards, who-may-write tables, extend-prefix lockstep '
@@ -196,9 +196,13 @@ CLAIMS.update({
              'in-place replacement), log_v_all is rebuilt or maintained in lockstep, each pushed '
              'ellipsoid is computed from the point set pushed at the same position, one flag per '
              'new record with the same size rule as compute(), the refusal test compares the '
-             'children with the ellipsoid being split, a refused operation has not touched '
-             'ellipsoids or points, and every change is followed by reset().',
-        ref='DESIGN.md section 4 C13, rules L1 L1d L6 L0 T1 T9', note=TRUST),
+             'children (their summed volume) with the ellipsoid being split and the replacement '
+             'sits on the branch where the sum does not exceed the parent, the cluster top-up '
+             'uses n_points_min as threshold and as size, a refused operation has not touched '
+             'ellipsoids or points, every change is followed by reset(), and no function of the '
+             'package writes into an array it was handed (so the recorded construction points '
+             'stay what they were).',
+        ref='DESIGN.md section 4 C13 and 10.9, rules L1 L1d L6 L0 T1 T9 S2 S3 F9', note=TRUST),
     'C14': dict(
         technique='lockstep rule on local view arrays; purity / parameter-guarded draw; '
                   'path-wise symbolic evaluation of the repeat counts',
